@@ -189,8 +189,7 @@ def shape_labels(dtd, doc):
             if dm.cm_operators(cm[1]) >= 2: L.add('cm:ops>=2')
         L.add('loc:' + dtd.elem_loc[n])
     for al in dtd.attlists.values():
-        for a in al:
-            L.add('att:%s/%s' % (a['type'], a['kind'])); L.add('loc:' + a['loc'])
+        for a in al: L.add('loc:' + a['loc'])
     if dtd.cm_via_pe: L.add('cm-via-pe')
     if dtd.decoys: L.add('ignore-decoys')
     if dtd.unparsed: L.add('unparsed-entity')
@@ -238,6 +237,9 @@ def worker(ctx):
     st_ = ctx.stats
     st_.extra['sequences'] = 0; st_.extra['sequences_rejected_by_model'] = 0
     st_.extra['mutation_not_violating'] = 0; st_.extra['generator_invalid'] = 0
+    hist_inj = st_.extra.setdefault('hist_injected', {}); hist_cls = st_.extra.setdefault('hist_violated_class', {})
+    hist_att = st_.extra.setdefault('hist_attdecl_type_kind', {}); hist_a = st_.extra.setdefault('hist_laneA_models', {})
+    def bump(h, k): h[k] = h.get(k, 0) + 1
 
     def prop_a(g):
         if any(not agree for _, _, _, agree in g['rows']):
@@ -252,7 +254,8 @@ def worker(ctx):
         nrej = sum(1 for r in case['rows'] if not r[2])
         st_.extra['sequences'] += len(case['rows']); st_.extra['sequences_rejected_by_model'] += nrej
         st_.note(xv.sha([case['doc_b64'], case['files_b64'], case['ns']]), nontriv, labels)
-        st_.sample({'lane': 'A', 'model': case['model'], 'L': g['L'], 'alphabet': g['alphabet'], 'sequences': len(case['rows']), 'rejected': nrej})
+        bump(hist_a, ('nondeterministic' if g['cm'][0] == 'CH' and not det else g['cm'][0]) + '/names=%d' % len(g['alphabet']))
+        if nontriv: st_.sample({'lane': 'A', 'model': case['model'], 'L': g['L'], 'alphabet': g['alphabet'], 'sequences': len(case['rows']), 'rejected': nrej}, limit=2)
         ok, detail = check_case(case, ex)
         if not ok: raise PropertyFailure(case, detail)
 
@@ -269,11 +272,13 @@ def worker(ctx):
         if g['lane'] == 'C' and not case['classes']: st_.extra['mutation_not_violating'] += 1
         labels = shape_labels(g['dtd'], g['doc']) | instance_labels(g['dtd'], g['doc'])
         labels |= {'lane:' + g['lane'], 'ns:%d' % g['ns'], 'verdict:' + ('invalid' if case['classes'] else 'valid')}
-        if g['injected']: labels.add('inj:' + g['injected'])
-        for c in case['classes']: labels.add('class:' + c)
+        if g['injected']: bump(hist_inj, g['injected'])
+        for c in case['classes']: bump(hist_cls, c)
+        for al in g['dtd'].attlists.values():
+            for a in al: bump(hist_att, '%s/%s' % (a['type'], a['kind']))
         nontriv = bool(case['classes']) if g['lane'] == 'C' else bool(labels & NONTRIV_B)
         st_.note(xv.sha([case['doc_b64'], case['files_b64'], case['ns']]), nontriv, sorted(labels))
-        if g['lane'] == 'C': st_.sample({'lane': 'C', 'injected': g['injected'], 'classes': case['classes'], 'doc': g['text'][:400]})
+        if g['lane'] == 'C' and case['classes']: st_.sample({'lane': 'C', 'injected': g['injected'], 'classes': case['classes'], 'doc': g['text'][:400]})
         ok, detail = check_case(case, ex)
         if not ok: raise PropertyFailure(case, detail)
 
@@ -283,3 +288,33 @@ def worker(ctx):
 
 def replay(case, ctx):
     return check_case(case, ctx.executor('xvexec'))
+
+# ---------------------------------------------------------------------------------------------------------------
+# known findings (genuine defects seen on the unchanged tree; excluded from generation by construction, see build_bc)
+# ---------------------------------------------------------------------------------------------------------------
+def make_case(text, files, classes, injected=None, ns=0, meta=True, lane='C'):
+    return {'lane': lane, 'ns': ns, 'off_diag': 1, 'doc_b64': b64(text), 'files_b64': {k: b64(v) for k, v in files.items()},
+            'classes': classes, 'injected': injected, 'meta': meta, 'doc_preview': text[:1500], 'files_preview': files}
+
+KNOWN = {
+    # XML 1.0 2.9 VC Standalone Document Declaration, 4th bullet: an externally declared tokenised attribute whose value changes under
+    # normalisation.  Xerces (IGXMLScanner::scanAttValue / normalizeAttValue, DGXMLScanner::scanAttValue) only looks for leading white space and for
+    # TAB/CR/LF followed by white space; trailing or doubled spaces are normalised away silently.
+    'C07-sa-attnorm-trailing-inner': make_case(
+        '<?xml version="1.0" encoding="UTF-8" standalone="yes"?>\n<!DOCTYPE a SYSTEM "ext.dtd" [\n<!ELEMENT a ANY>\n]>\n<a p="d0 " q="x  y"></a>\n',
+        {'ext.dtd': '<!ATTLIST a p ID #IMPLIED q NMTOKENS #IMPLIED>\n'}, ['sa-norm'], 'sa-norm>sa-norm:trail'),
+    # XML 1.0 3.3.1 VC Enumeration / VC Notation Attributes: the value must match ONE of the listed tokens.  DTDValidator::validateAttrValue treats
+    # Enumeration and Notation as multi-valued types and checks the value token by token, so "x y" passes for (x|y).
+    'C07-enum-multiple-tokens-accepted': make_case(
+        '<!DOCTYPE r [\n<!ELEMENT r ANY>\n<!ATTLIST r t (x|y) #IMPLIED>\n]>\n<r t="x y"/>\n', {}, ['bad-enum'], 'enum-multi>bad-enum'),
+}
+
+def known_witnesses():
+    return sorted(KNOWN.items())
+
+def classify(case, detail):
+    if case.get('lane') == 'A': return None
+    inj = case.get('injected') or ''
+    if case.get('classes') == ['sa-norm'] and inj.startswith('sa-norm>') and 'no validity error was reported' in detail: return 'C07-sa-attnorm-trailing-inner'
+    if case.get('classes') == ['bad-enum'] and inj.startswith('enum-multi>') and 'no validity error was reported' in detail: return 'C07-enum-multiple-tokens-accepted'
+    return None
